@@ -153,7 +153,7 @@ def run(ctx):
     ctx.rule('C18.R1', 'reconcile_path equals the documented table on every consistent valuation', floor=15)
     ctx.rule('C18.R2', 'Fingerprint::same == (blake3 == blake3) AND (ftype == ftype); fingerprints flow only into `same`', floor=1)
     ctx.rule('C18.R3', 'mirror symmetry; no Delete* without a base', floor=15)
-    ctx.rule('C18.R4', 'reconcile: union of both key sets, same path for every lookup, pushes exactly the non-Noop actions', floor=4)
+    ctx.rule('C18.R4', 'reconcile: union of both key sets, every path decided by reconcile_path, same path for every lookup, pushes exactly the non-Noop actions', floor=5)
     ctx.rule('C18.X1', 'cross-check: Lean mirror lean/BidirectionalReconcile.lean agrees on every valuation (informational)')
     where = 'src/bin/copia/reconcile.rs (reconcile::reconcile_path)'
     leaves = table_of(ctx, F, 'C18.R2')
@@ -323,6 +323,18 @@ def reconcile_rule(ctx, F):
             has_p = any(o.kind == 'call' and o.key == 'std::iter::Iterator::next' for o in os_)
             ctx.check(has_act and has_p, 'C18.R4', 'reconcile:pushed-pair', '(p.clone(), act)',
                       'the pushed pair is not (loop path, decided action)', term_loc(b, pb))
+    # every path of the union is decided: no way from the loop variable back to the loop head (or out) that skips reconcile_path
+    rp_blocks = [cb for cb, _ in rp]
+    loop_nexts = [(nb, nt) for nb, nt in nexts if any(nb in blocks and any(cb in blocks for cb in rp_blocks) for h, blocks in cfg.loops().items())]
+    skipped = None
+    for nb, nt in loop_nexts:
+        for (s_, t_, lab) in fl.outcomes(nb).get('Some', set()):
+            r = cfg.reach(t_, cut_blocks=rp_blocks)
+            if nb in r or (r & set(cfg.exits())):
+                skipped = t_
+    ctx.check(bool(loop_nexts) and skipped is None, 'C18.R4', 'reconcile:every-path-decided', 'each path of the union reaches reconcile_path before the next iteration',
+              'reconcile can move on to the next path (or return) without asking reconcile_path about the current one: a path is dropped from the plan by something other than the documented table',
+              term_loc(b, skipped) if skipped is not None else loc(b, b.lo))
     # sorted + deduped
     srt = fl.calls(lambda c: 'sort' in c.split('::')[-1])
     ded = fl.calls(lambda c: c.endswith('::dedup'))
